@@ -311,6 +311,11 @@ def main(prop, tier):
     args = [(prop, modname, i, tier) for i in range(len(tasks))]
     # longest tasks first
     order = sorted(range(len(tasks)), key=lambda i: -tasks[i].get("weight", 1))
+    only = os.environ.get("VERIF_ONLY")              # development aid: run a subset of tasks (evidence goes to VERIF_OUT)
+    if only:
+        assert os.environ.get("VERIF_OUT"), "VERIF_ONLY requires VERIF_OUT (partial runs must not overwrite evidence)"
+        order = [i for i in order if only in tasks[i]["fn"]]
+        nproc = max(1, min(nproc, len(order)))
     ctx = mp.get_context("fork")
     with ctx.Pool(nproc, maxtasksperchild=1) as pool:
         outs = pool.map(run_task, [args[i] for i in order], chunksize=1)
